@@ -432,12 +432,14 @@ def decide(h, goto, workdir, tier_cap):
     """decide one harness; an SMT-routed harness whose formula cannot be dumped/parsed (constructs CBMC's SMT2 encoder lacks, e.g.
     round-to-integral or float remainder) is re-decided by the SAT back end"""
     r = decide1(h, goto, workdir, tier_cap)
-    if h.backend == "smt" and r.status == "inconclusive" and ("smt2 dump failed" in r.detail or "=error" in r.detail):
+    if h.backend == "smt" and r.status == "inconclusive" and ("smt2 dump failed" in r.detail or "=error" in r.detail or "=timeout" in r.detail):
         h2 = copy.copy(h)
         h2.backend = "sat"
         r2 = decide1(h2, goto, workdir, tier_cap)
         r2.h = h
-        r2.solver += " (SAT fallback: SMT2 encoder lacks a construct)"
+        r2.solver += " (SAT fallback: SMT2 encoder lacks a construct, or both SMT solvers timed out)"
+        if r2.status == "inconclusive":
+            r2.detail = r.detail + "; " + r2.detail
         return r2
     return r
 
